@@ -47,8 +47,15 @@ func buildStoreConfig(c *sim.RunCtx, s *rt.Sched, cfg *storeCfg, m *media, proc 
 	blockdevice.VerifBlockDeviceFromFileHook = func(path string, minimumSizeBytes int, zeroInitialize bool) (blockdevice.BlockDevice, int, int64, error, bool) {
 		switch path {
 		case "/verifsim/data":
+			if zeroInitialize {
+				m.data.Wipe()
+				c.Count("wconfig_data_device_zero_initialized", 1)
+			}
 			return m.data, cfg.SectorSize, m.data.Size() / int64(cfg.SectorSize), nil, true
 		case "/verifsim/index":
+			if zeroInitialize {
+				m.index.Wipe()
+			}
 			return m.index, cfg.SectorSize, m.index.Size() / int64(cfg.SectorSize), nil, true
 		}
 		return nil, 0, 0, nil, false
